@@ -52,6 +52,9 @@ def edits_raw(rng, raw):
     out = [({**co, v: co[v] + 1}, c), (dict(co), c + 1), ({**co, v: co[v] * (1 + 2.0**-17)}, c), (dict(co), c + 2.0**-16)]
     if len(co) > 1:
         out.append(({k: co[k] for k in reversed(sorted(co))}, c))    # same term, other insertion order
+        ks = sorted(co)
+        if co[ks[0]] != co[ks[1]]:
+            out.append(({**co, ks[0]: co[ks[1]], ks[1]: co[ks[0]]}, c))   # the same coefficients handed to other variables: a different term
     return out
 
 
